@@ -88,9 +88,9 @@ Topos(kd) ==
   \* a leaf port wired by a dictionary that only names its node ({'_path': p})
   \cup (IF kd.k # "leaf" THEN {}
         ELSE {[t |-> "dict", hasp |-> TRUE, p |-> p, sub |-> <<>>] : p \in {<<"x">>, <<UP, "y">>}})
-  \* (the constructor does not accept a dictionary topology for an output
-  \*  port: that combination is outside the domain)
-  \cup (IF Children(kd) = {} \/ kd.k = "output" THEN {}
+  \* (also for an output port: '_output' says how the port is read, it is
+  \*  not one of its variables)
+  \cup (IF Children(kd) = {} THEN {}
         ELSE {[t |-> "dict", hasp |-> h, p |-> p, sub |-> s] :
                 h \in BOOLEAN, p \in {<<"x">>, <<UP, "y">>}, s \in SubMaps(kd)})
 
